@@ -25,6 +25,9 @@ def jobs(tier, seed):
                   scheds=2, name="free")
     js += batches("ctl_sweep", scale(tier, 40, 600), scale(tier, 4, 20), gen="mix", p_loop=0.2, gseed=seed + 9,
                   P=dict(p_intjoin=0.3, nmax=6), modes=["pause", "cancel"], name="sweep")
+    # fail commands with clean-up siblings under pause / cancel at every position
+    js += batches("ctl_sweep", scale(tier, 40, 600), scale(tier, 4, 20), gen="dag", gseed=seed + 10, p_fail=0.35,
+                  P=dict(p_fail_cmd=0.45, nmax=5, p_items=0.05, p_retry=0.05), modes=["cancel", "pause"], name="sweep-fail-commands")
     return js
 
 
